@@ -175,6 +175,8 @@ class _Gen:
             elif k == "g":
                 a = {}
                 _paint(ch, a, self.classes)
+                if self.clips and ch.coin(0.2):
+                    a["clip-path"] = "url(#%s)" % ch.choice(self.clips)
                 e = self.elem("g", a)
                 self.maybe_id(e, 0.6)
                 e["kids"] = self.children(depth + 1, in_defs)
@@ -191,6 +193,9 @@ class _Gen:
                 if ch.coin(0.5):
                     a["x"] = _num(ch)
                     a["y"] = _num(ch)
+                if ch.coin(0.15):
+                    a["width"] = _len(ch, True)
+                    a["height"] = _len(ch, True)
                 _paint(ch, a, self.classes)
                 a["__href__"] = ch.choice(["href", "xlink:href"])
                 e = self.elem("use", a)
